@@ -41,6 +41,10 @@ type Env struct {
 type Invocation struct {
 	Writer string `json:"writer"`
 	Env    Env    `json:"env"`
+	// SinkFault makes the destination of this call fail: the call is expected to return an error and its
+	// bytes are not compared; what is checked is that the list is untouched and that the *following*
+	// calls still write what they write alone ("writing the same list twice" after a failed attempt).
+	SinkFault *simio.WriteFault `json:"sink_fault,omitempty"`
 }
 
 // Episode is one replayable C19 case.
@@ -95,6 +99,10 @@ type callResult struct {
 
 // invoke runs one writer on s under env.
 func invoke(s *astisub.Subtitles, writer string, env Env) callResult {
+	return invokeSink(s, writer, env, nil)
+}
+
+func invokeSink(s *astisub.Subtitles, writer string, env Env, fault *simio.WriteFault) callResult {
 	var r callResult
 	r.Before = canon.Hash(s)
 	j := 0
@@ -123,7 +131,7 @@ func invoke(s *astisub.Subtitles, writer string, env Env) callResult {
 		r.ClockGot = append(r.ClockGot, v)
 		return time.Unix(0, v).UTC()
 	}
-	w := simio.NewWriter(simio.WritePlan{})
+	w := simio.NewWriter(simio.WritePlan{Fault: fault})
 	err, p := api.Write(writer, s, w)
 	astisub.Now = prevNow
 	hooks.SetMapOrder(nil)
@@ -195,9 +203,15 @@ func CheckEpisode(ep Episode) (*Violation, []callResult) {
 	s := ep.Source.Build()
 	var results []callResult
 	for i, c := range ep.Calls {
-		r := invoke(s, c.Writer, c.Env)
+		r := invokeSink(s, c.Writer, c.Env, c.SinkFault)
 		results = append(results, r)
 		ref := refs[c.Writer]
+		if c.SinkFault != nil {
+			if r.Before != r.After {
+				return mk("input-modified", c.Writer, fmt.Sprintf("call #%d (%s, failing destination) changed the cue list it was given", i, c.Writer)), results
+			}
+			continue // outcome of a write into a failing destination is C18's business
+		}
 		if r.Before != r.After {
 			return mk("input-modified", c.Writer, fmt.Sprintf("call #%d (%s) changed the cue list it was given (canonical rendering incl. aliasing differs before/after)", i, c.Writer)), results
 		}
@@ -364,6 +378,9 @@ func RunC19(cfg Config) (*ShardResult, error) {
 				nontrivial = true
 				res.Probes["writer_after_other_writer"]++
 			}
+			if i < len(ep.Calls) && ep.Calls[i].SinkFault != nil {
+				res.Probes["write_into_failing_destination_first"]++
+			}
 			if r.Class != "ok" {
 				res.Probes["writer_fails_deterministically"]++
 			}
@@ -437,6 +454,10 @@ func RunC19(cfg Config) (*ShardResult, error) {
 					} else {
 						env.Perms = append(env.Perms, nil)
 					}
+				}
+				if sr.Bool(0.3) { // a failed attempt first, then the same writer again
+					calls = append(calls, Invocation{Writer: api.WriterFormats[wi], Env: env,
+						SinkFault: &simio.WriteFault{Offset: sr.PickInt(0, 1, 100, 1024, 1100, 1500), Kind: simio.WriteFaultKinds[sr.Intn(len(simio.WriteFaultKinds))], Short: sr.Bool(0.5)}})
 				}
 				calls = append(calls, Invocation{Writer: api.WriterFormats[wi], Env: env})
 			}
